@@ -66,9 +66,9 @@ def make_media(plan, hook=None):
             varr.append(np.zeros((nf, Hv, Wv, 1 if blob else 3), dtype=np.float32 if blob else dtype))
         for f in plan["frames"]:
             varr[f["vid"]][f["fidx"]] = render(f)
-        vids = [media.make_mem_video(varr[v], name=f"mem{v}.mp4", on_read=hook) for v in range(nv)]
+        vids = [media.make_mem_video(varr[v], name="project.pkg.slp" if plan.get("same_filename") else f"mem{v}.mp4", on_read=hook) for v in range(nv)]
         for f in plan["frames"]:
-            insts = [(np.array(a, dtype="float64"), False) for a in f["animals"]]
+            insts = [(np.array(a, dtype="float64"), False) for j, a in enumerate(f["animals"]) if j not in f.get("unlabelled", ())]
             if not insts:
                 insts = [(np.full((plan["n_nodes"], 2), np.nan), False)]
             spec.append((f["vid"], f["fidx"], insts))
@@ -76,7 +76,7 @@ def make_media(plan, hook=None):
         return video, labels
     mv = media.make_mem_video(arr, name="mem.mp4", on_read=hook)
     for i, f in enumerate(plan["frames"]):
-        insts = [(np.array(a, dtype="float64"), False) for a in f["animals"]]
+        insts = [(np.array(a, dtype="float64"), False) for j, a in enumerate(f["animals"]) if j not in f.get("unlabelled", ())]  # the image may show animals the labels lack
         if not insts:
             insts = [(np.full((plan["n_nodes"], 2), np.nan), False)]
         spec.append((0, i, insts))
@@ -128,8 +128,9 @@ def build_predictor(plan, sim, provider, hook=None, batch=None, max_instances="p
         nets["centroid"], nets["centered"] = cnet, inet
         mi = plan.get("max_instances") if max_instances == "plan" else max_instances
         gt = bool(plan.get("gt_centroids"))  # centered-instance model alone: crops come from the labelled centroids (LabelsReader only)
-        pred = P.TopDownPredictor(centroid_config=None if gt else head_cfg(plan, "centroid"), confmap_config=head_cfg(plan, "centered"), centroid_model=None if gt else cnet,
-                                  confmap_model=inet, centroid_backbone_type="unet", centered_instance_backbone_type="unet", peak_threshold=0.2,
+        co = bool(plan.get("centroid_only"))  # centroid model alone: instances are the labelled ones matched to the detected centroids
+        pred = P.TopDownPredictor(centroid_config=None if gt else head_cfg(plan, "centroid"), confmap_config=None if co else head_cfg(plan, "centered"), centroid_model=None if gt else cnet,
+                                  confmap_model=None if co else inet, centroid_backbone_type="unet", centered_instance_backbone_type="unet", peak_threshold=0.2,
                                   integral_refinement=refine, integral_patch_size=5, batch_size=bs, max_instances=mi, preprocess_config=prep,
                                   anchor_ind=plan.get("anchor"))
     else:
